@@ -379,8 +379,45 @@ class C16(spec.Spec):
                     out.violation("reader-returns-other-document", "%s:%s:%s" % (fmt, sname, rname),
                                   {"got": "None" if got is None else repr(observe.dobs(got))[:400],
                                    "want": repr(observe.dobs(doc))[:400]}, hh)
+                    continue
+                out.outcomes["read-ok:%s" % rname] += 1
+                # the document handed out is the caller's: editing it and reading the same source again (a fresh stream
+                # over the same text, the same path) gives the document of the text again, as a new object
+                try:
+                    got.entity(QualifiedName(Namespace("zz6", "http://zz6.example/"), "edited-after-reading"))
+                    kw = mk()
+                    try:
+                        again = rd(kw)
+                    finally:
+                        _close(kw)
+                except Exception as e:
+                    out.violation("reader-raises", "%s:%s:%s:second-read:%s" % (fmt, sname, rname, type(e).__name__),
+                                  {"error": repr(e)[:300]}, hh)
+                    continue
+                out.transitions += 1
+                if again is got or again is None or not same_doc(base, again, doc):
+                    out.violation("second-read-returns-other-document", "%s:%s:%s" % (fmt, sname, rname),
+                                  {"same_object": again is got,
+                                   "got": "None" if again is None else repr(observe.dobs(again))[:400],
+                                   "want": repr(observe.dobs(doc))[:400]}, hh)
                 else:
-                    out.outcomes["read-ok:%s" % rname] += 1
+                    out.outcomes["second-read-ok:%s" % rname] += 1
+        # the path read above now receives ANOTHER document: every path reader returns that one
+        other = ProvDocument()
+        other.entity(QualifiedName(Namespace("zz6", "http://zz6.example/"), "other-document"))
+        try:
+            self.ser(other, fmt, path)
+            for rname, rd in (("deserialize", lambda: ProvDocument.deserialize(path, format=base)),
+                              ("prov.read(format)", lambda: prov.read(path, format=base)), ("prov.read()", lambda: prov.read(path))):
+                got = rd()
+                out.transitions += 1
+                if got is None or not same_doc(base, got, other):
+                    out.violation("path-rewritten-reader-returns-other-document", "%s:%s" % (fmt, rname),
+                                  {"got": "None" if got is None else repr(observe.dobs(got))[:400]}, hh)
+                else:
+                    out.outcomes["path-rewritten-read-ok"] += 1
+        except Exception as e:
+            out.violation("reader-raises", "%s:path-rewritten:%s" % (fmt, type(e).__name__), {"error": repr(e)[:300]}, hh)
         out.nontrivial += 1
         out.conform += 1
         if len(out.samples) < 1:
